@@ -841,7 +841,10 @@ impl Rasn {
             ASN1Type::ElsewhereDeclaredType(d) => {
                 self.to_rust_qualified_type(d.module.as_deref(), &d.identifier)
             }
-            _ => format_ident!("Anonymous{}", &name.to_string()).to_token_stream(),
+            // (the name the item type is declared under above)
+            _ => self
+                .to_rust_title_case(&(String::from(INNER_ARRAY_LIKE_PREFIX) + &name.to_string()))
+                .to_token_stream(),
         };
         let mut annotations = vec![
             quote!(delegate),
